@@ -1008,3 +1008,284 @@ Proof.
   destruct Hg2 as [g Hg2].
   eexists. eapply validate_fold; try eassumption. apply Hl2. reflexivity.
 Qed.
+
+(* =============================================================================================
+   canonical whatever the spelling: a scalar (or one-element list) and the vector that repeats it validate
+   to the same outcome -- not only the same configuration on success, also the same rejection
+   ============================================================================================= *)
+(* l' spells the array l of a field whose full length is n: the same list, or the scalar written out *)
+Definition spelled {A} (n : nat) (l l' : list A) : Prop := l' = l \/ l' = expand n l.
+Definition ospelled {A} (n : nat) (o o' : option (list A)) : Prop :=
+  match o, o' with None, None => True | Some l, Some l' => spelled n l l' | _, _ => False end.
+
+Record respelled (raw raw' : config) : Prop := {
+  rs_initial : v_initial (c_vars raw') = v_initial (c_vars raw);
+  rs_lower : spelled (nvars raw) (v_lower (c_vars raw)) (v_lower (c_vars raw'));
+  rs_upper : spelled (nvars raw) (v_upper (c_vars raw)) (v_upper (c_vars raw'));
+  rs_types : ospelled (nvars raw) (v_types (c_vars raw)) (v_types (c_vars raw'));
+  rs_mask : ospelled (nvars raw) (v_mask (c_vars raw)) (v_mask (c_vars raw'));
+  rs_obj : c_obj_w raw' = c_obj_w raw;
+  rs_real : c_real_w raw' = c_real_w raw;
+  rs_rmin : c_rmin raw' = c_rmin raw;
+  rs_P : g_P (c_grad raw') = g_P (c_grad raw);
+  rs_pmin : g_pmin (c_grad raw') = g_pmin (c_grad raw);
+  rs_mags : spelled (nvars raw) (g_mags (c_grad raw)) (g_mags (c_grad raw'));
+  rs_ptypes : spelled (nvars raw) (g_ptypes (c_grad raw)) (g_ptypes (c_grad raw'));
+  rs_btypes : spelled (nvars raw) (g_btypes (c_grad raw)) (g_btypes (c_grad raw'));
+  rs_lin : match c_lin raw, c_lin raw' with
+           | None, None => True
+           | Some l, Some l' => l_coeffs l' = l_coeffs l /\
+                                spelled (length (l_coeffs l)) (l_lower l) (l_lower l') /\
+                                spelled (length (l_coeffs l)) (l_upper l) (l_upper l')
+           | _, _ => False
+           end;
+  rs_nonlin : match c_nonlin raw, c_nonlin raw' with
+              | None, None => True
+              | Some nl, Some nl' => spelled (length (n_upper nl)) (n_lower nl) (n_lower nl') /\
+                                     spelled (length (n_lower nl)) (n_upper nl) (n_upper nl')
+              | _, _ => False
+              end
+}.
+
+Lemma bcast_to_spelled {A} n (l l' : list A) : spelled n l l' -> bcast_to n l' = bcast_to n l.
+Proof.
+  intros [->| ->]; [reflexivity|]. unfold expand. destruct l as [|x [|y t]]; try reflexivity.
+  rewrite bcast_to_fixed by apply repeat_length. reflexivity.
+Qed.
+
+Lemma broadcast1_spelled {A} n (l l' : list A) : spelled n l l' -> broadcast1 n l' = broadcast1 n l.
+Proof. intros H. unfold broadcast1. destruct (Nat.eqb n 0); [reflexivity | apply bcast_to_spelled; exact H]. Qed.
+
+Lemma forallb_repeat_S {A} (f : A -> bool) x n : forallb f (repeat x (S n)) = f x.
+Proof. induction n as [|n IH]; cbn [repeat forallb] in *; [apply andb_true_r | rewrite IH; apply andb_diag]. Qed.
+
+Lemma enum_ok_spelled lo hi n l l' : n <> 0%nat -> spelled n l l' -> enum_ok lo hi l' = enum_ok lo hi l.
+Proof.
+  intros Hn [->| ->]; [reflexivity|]. unfold expand. destruct l as [|x [|y t]]; try reflexivity.
+  destruct n as [|n]; [contradiction|]. unfold enum_ok. rewrite forallb_repeat_S. cbn [forallb]. symmetry. apply andb_true_r.
+Qed.
+
+Lemma bcast_pair_spelled {A} (a b a' b' : list A) :
+  spelled (length b) a a' -> spelled (length a) b b' -> bcast_pair a' b' = bcast_pair a b.
+Proof.
+  intros Ha Hb.
+  assert (Ea : a' = a \/ exists x, a = [x] /\ a' = repeat x (length b)).
+  { destruct Ha as [->| ->]; [left; reflexivity|]. unfold expand. destruct a as [|x [|y t]]; [left; reflexivity | right; eauto | left; reflexivity]. }
+  assert (Eb : b' = b \/ exists y, b = [y] /\ b' = repeat y (length a)).
+  { destruct Hb as [->| ->]; [left; reflexivity|]. unfold expand. destruct b as [|x [|y t]]; [left; reflexivity | right; eauto | left; reflexivity]. }
+  destruct Ea as [->|[x [-> ->]]]; destruct Eb as [->|[y [Eb ->]]]; try reflexivity.
+  - (* b = [y] written out to the length of a *)
+    subst b. destruct a as [|x1 [|x2 t]]; try reflexivity.
+    cbn [length repeat bcast_pair]. rewrite repeat_length, Nat.eqb_refl. reflexivity.
+  - (* a = [x] written out to the length of b *)
+    destruct b as [|y1 [|y2 t]]; try reflexivity.
+    cbn [length repeat bcast_pair]. rewrite repeat_length, Nat.eqb_refl. reflexivity.
+  - (* both one-element lists *)
+    subst b. reflexivity.
+Qed.
+
+(* validate_variables as a function of the outcomes of its broadcasts *)
+Definition vv_core (E : enums) (ctx : option scaler) (ini : list Q) (olo oup : outcome (list ereal))
+    (oty : outcome (option (list Z))) (omk : outcome (option (list bool))) : outcome variables :=
+  let n := length ini in
+  lo <- olo ;; up <- oup ;;
+  _ <- match ctx with None => Ok tt | Some sc => supported (scaler_ok n sc) end ;;
+  let ini' := match ctx with None => ini | Some sc => to_opt_q sc ini end in
+  let lo := match ctx with None => lo | Some sc => to_opt_e sc lo end in
+  let up := match ctx with None => up | Some sc => to_opt_e sc up end in
+  _ <- guard (negb (any_gt lo up)) ;;
+  ty <- oty ;; mk <- omk ;;
+  Ok {| v_initial := ini'; v_lower := lo; v_upper := up; v_types := ty; v_mask := mk |}.
+
+Lemma validate_variables_core E ctx v :
+  validate_variables E ctx v =
+  vv_core E ctx (v_initial v) (broadcast1 (length (v_initial v)) (v_lower v)) (broadcast1 (length (v_initial v)) (v_upper v))
+    (omap (fun t => _ <- guard (enum_ok (vt_lo E) (vt_hi E) t) ;; broadcast1 (length (v_initial v)) t) (v_types v))
+    (omap (broadcast1 (length (v_initial v))) (v_mask v)).
+Proof. reflexivity. Qed.
+
+Lemma validate_variables_spelled E ctx v v' : length (v_initial v) <> 0%nat ->
+  v_initial v' = v_initial v ->
+  spelled (length (v_initial v)) (v_lower v) (v_lower v') -> spelled (length (v_initial v)) (v_upper v) (v_upper v') ->
+  ospelled (length (v_initial v)) (v_types v) (v_types v') -> ospelled (length (v_initial v)) (v_mask v) (v_mask v') ->
+  validate_variables E ctx v' = validate_variables E ctx v.
+Proof.
+  intros Hn Hi Hlo Hup Hty Hmk. rewrite !validate_variables_core, Hi.
+  rewrite (broadcast1_spelled _ _ _ Hlo), (broadcast1_spelled _ _ _ Hup).
+  f_equal.
+  - unfold ospelled in Hty. destruct (v_types v) as [t|], (v_types v') as [t'|]; try contradiction; [|reflexivity].
+    cbn [omap]. rewrite (enum_ok_spelled _ _ _ _ _ Hn Hty), (broadcast1_spelled _ _ _ Hty). reflexivity.
+  - unfold ospelled in Hmk. destruct (v_mask v) as [m|], (v_mask v') as [m'|]; try contradiction; [|reflexivity].
+    cbn [omap]. rewrite (broadcast1_spelled _ _ _ Hmk). reflexivity.
+Qed.
+
+Lemma validate_linear_fields_spelled l l' : l_coeffs l' = l_coeffs l ->
+  spelled (length (l_coeffs l)) (l_lower l) (l_lower l') -> spelled (length (l_coeffs l)) (l_upper l) (l_upper l') ->
+  validate_linear_fields l' = validate_linear_fields l.
+Proof.
+  intros Hc Hlo Hup. unfold validate_linear_fields. cbn zeta. rewrite Hc.
+  destruct (guard _) as [u| |]; cbn [bind]; try reflexivity.
+  rewrite (broadcast1_spelled _ _ _ Hlo). destruct (broadcast1 _ (l_lower l)) as [lo| |]; cbn [bind]; try reflexivity.
+  rewrite (broadcast1_spelled _ _ _ Hup). reflexivity.
+Qed.
+
+Lemma validate_nonlinear_spelled nls nl nl' :
+  spelled (length (n_upper nl)) (n_lower nl) (n_lower nl') -> spelled (length (n_lower nl)) (n_upper nl) (n_upper nl') ->
+  validate_nonlinear nls nl' = validate_nonlinear nls nl.
+Proof. intros Hlo Hup. unfold validate_nonlinear. rewrite (bcast_pair_spelled _ _ _ _ Hlo Hup). reflexivity. Qed.
+
+(* what validate does once the sections that do not depend on each other are validated *)
+Definition validate_tail (E : enums) (ctx : option scaler) (grad : gradient) (rmin : option nat)
+    (vars : variables) (ow : list Q) (lin1 : option linear) (nl : option nonlinear) (rw : list Q) : outcome config :=
+  g <- validate_gradient_fields E grad ;;
+  lin <- omap (apply_transformation ctx vars) lin1 ;;
+  g <- fix_perturbations E ctx vars g ;;
+  Ok {| c_vars := vars; c_obj_w := ow; c_real_w := rw; c_rmin := clamp_min rmin (length rw);
+        c_grad := g; c_lin := lin; c_nonlin := nl |}.
+
+Definition validate_core (A : outcome variables) (B : outcome (list Q)) (C : outcome (option linear))
+    (D : outcome (option nonlinear)) (F : outcome (list Q))
+    (T : variables -> list Q -> option linear -> option nonlinear -> list Q -> outcome config) : outcome config :=
+  vars <- A ;; ow <- B ;; lin1 <- C ;; nl <- D ;; rw <- F ;; T vars ow lin1 nl rw.
+
+Lemma validate_as_core E ctx nls raw :
+  validate E ctx nls raw =
+  validate_core (validate_variables E ctx (c_vars raw)) (normalize (c_obj_w raw)) (omap validate_linear_fields (c_lin raw))
+    (omap (validate_nonlinear nls) (c_nonlin raw)) (normalize (c_real_w raw)) (validate_tail E ctx (c_grad raw) (c_rmin raw)).
+Proof. reflexivity. Qed.
+
+Lemma validate_tail_spelled E ctx g g' rmin vars ow lin1 nl rw :
+  length (v_initial vars) <> 0%nat ->
+  g_P g' = g_P g -> g_pmin g' = g_pmin g ->
+  spelled (length (v_initial vars)) (g_mags g) (g_mags g') ->
+  spelled (length (v_initial vars)) (g_ptypes g) (g_ptypes g') ->
+  spelled (length (v_initial vars)) (g_btypes g) (g_btypes g') ->
+  validate_tail E ctx g' rmin vars ow lin1 nl rw = validate_tail E ctx g rmin vars ow lin1 nl rw.
+Proof.
+  intros Hn HP Hpm Hm Hpt Hbt. unfold validate_tail, validate_gradient_fields. rewrite HP, Hpm.
+  destruct (guard (Nat.ltb 0 (g_P g))) as [u| |]; cbn [bind]; try reflexivity.
+  destruct (guard match g_pmin g with Some 0%nat => false | _ => true end) as [u'| |]; cbn [bind]; try reflexivity.
+  rewrite (enum_ok_spelled _ _ _ _ _ Hn Hpt).
+  destruct (guard (enum_ok (pt_lo E) (pt_hi E) (g_ptypes g))) as [u''| |]; cbn [bind]; try reflexivity.
+  rewrite (enum_ok_spelled _ _ _ _ _ Hn Hbt).
+  destruct (guard (enum_ok (bt_lo E) (bt_hi E) (g_btypes g))) as [u'''| |]; cbn [bind]; try reflexivity.
+  destruct (omap (apply_transformation ctx vars) lin1) as [lin| |]; cbn [bind]; try reflexivity.
+  unfold fix_perturbations. cbn zeta. cbn [g_P g_pmin g_mags g_ptypes g_btypes].
+  rewrite (bcast_to_spelled _ _ _ Hm), (bcast_to_spelled _ _ _ Hbt), (bcast_to_spelled _ _ _ Hpt). reflexivity.
+Qed.
+
+Lemma validate_respelled E ctx nls raw raw' : nvars raw <> 0%nat -> respelled raw raw' ->
+  validate E ctx nls raw' = validate E ctx nls raw.
+Proof.
+  intros Hn [Hi Hlo Hup Hty Hmk Hobj Hreal Hrmin HP Hpm Hm Hpt Hbt Hlin Hnl]. unfold nvars in *.
+  rewrite !validate_as_core.
+  rewrite (validate_variables_spelled E ctx _ _ Hn Hi Hlo Hup Hty Hmk), Hobj, Hreal, Hrmin.
+  assert (El : omap validate_linear_fields (c_lin raw') = omap validate_linear_fields (c_lin raw)).
+  { destruct (c_lin raw) as [l|], (c_lin raw') as [l'|]; try contradiction; [|reflexivity].
+    destruct Hlin as (Hc & Hl1 & Hl2). cbn [omap]. rewrite (validate_linear_fields_spelled _ _ Hc Hl1 Hl2). reflexivity. }
+  assert (En : omap (validate_nonlinear nls) (c_nonlin raw') = omap (validate_nonlinear nls) (c_nonlin raw)).
+  { destruct (c_nonlin raw) as [nl|], (c_nonlin raw') as [nl'|]; try contradiction; [|reflexivity].
+    destruct Hnl as (Hn1 & Hn2). cbn [omap]. rewrite (validate_nonlinear_spelled _ _ _ Hn1 Hn2). reflexivity. }
+  rewrite El, En. unfold validate_core.
+  destruct (validate_variables E ctx (c_vars raw)) as [vars| |] eqn:Hv; cbn [bind]; try reflexivity.
+  destruct (normalize (c_obj_w raw)) as [ow| |]; cbn [bind]; try reflexivity.
+  destruct (omap validate_linear_fields (c_lin raw)) as [lin1| |]; cbn [bind]; try reflexivity.
+  destruct (omap (validate_nonlinear nls) (c_nonlin raw)) as [nl| |]; cbn [bind]; try reflexivity.
+  destruct (normalize (c_real_w raw)) as [rw| |]; cbn [bind]; try reflexivity.
+  apply validate_variables_wf in Hv as [[Hlen _ _ _ _ _] _].
+  apply validate_tail_spelled; rewrite ?Hlen; assumption.
+Qed.
+
+(* writing every scalar of a dictionary out to full length is one such spelling *)
+Definition spell_out (raw : config) : config :=
+  let V := nvars raw in
+  {| c_vars := {| v_initial := v_initial (c_vars raw); v_lower := expand V (v_lower (c_vars raw));
+                  v_upper := expand V (v_upper (c_vars raw)); v_types := option_map (expand V) (v_types (c_vars raw));
+                  v_mask := option_map (expand V) (v_mask (c_vars raw)) |};
+     c_obj_w := c_obj_w raw; c_real_w := c_real_w raw; c_rmin := c_rmin raw;
+     c_grad := {| g_P := g_P (c_grad raw); g_pmin := g_pmin (c_grad raw); g_mags := expand V (g_mags (c_grad raw));
+                  g_ptypes := expand V (g_ptypes (c_grad raw)); g_btypes := expand V (g_btypes (c_grad raw)) |};
+     c_lin := option_map (fun l => {| l_coeffs := l_coeffs l; l_lower := expand (length (l_coeffs l)) (l_lower l);
+                                      l_upper := expand (length (l_coeffs l)) (l_upper l) |}) (c_lin raw);
+     c_nonlin := option_map (fun nl => {| n_lower := expand (length (n_upper nl)) (n_lower nl);
+                                          n_upper := expand (length (n_lower nl)) (n_upper nl) |}) (c_nonlin raw) |}.
+
+Lemma spell_out_respelled raw : respelled raw (spell_out raw).
+Proof.
+  constructor; cbn; try reflexivity; try (right; reflexivity).
+  - destruct (v_types (c_vars raw)); cbn; [right; reflexivity | exact I].
+  - destruct (v_mask (c_vars raw)); cbn; [right; reflexivity | exact I].
+  - destruct (c_lin raw); cbn; [repeat split; right; reflexivity | exact I].
+  - destruct (c_nonlin raw); cbn; [split; right; reflexivity | exact I].
+Qed.
+
+Lemma validate_spell_out E ctx nls raw : nvars raw <> 0%nat -> validate E ctx nls (spell_out raw) = validate E ctx nls raw.
+Proof. intros Hn. apply validate_respelled; [exact Hn | apply spell_out_respelled]. Qed.
+
+(* =============================================================================================
+   stable under any number of re-validations (hand-offs): validate o dump iterated n times
+   ============================================================================================= *)
+Fixpoint revalidate_n (E : enums) (n : nat) (c : config) : outcome config :=
+  match n with
+  | O => Ok c
+  | S k => c' <- validate E None None (dump c) ;; revalidate_n E k c'
+  end.
+
+Lemma qlist_eqb_Forall2 a b : qlist_eqb a b = true <-> Forall2 Qeq a b.
+Proof.
+  unfold qlist_eqb. revert b. induction a as [|x a IH]; intros [|y b]; cbn [list_eqb]; split; intros H;
+    try discriminate; try constructor; try (inversion H; fail).
+  - apply andb_true_iff in H as [H1 H2]. apply Qeqb_eq; exact H1.
+  - apply andb_true_iff in H as [H1 H2]. apply IH; exact H2.
+  - inversion H as [|? ? ? ? H1 H2]; subst. apply andb_true_iff. split; [apply Qeqb_eq; exact H1 | apply IH; exact H2].
+Qed.
+
+Lemma qlist_eqb_trans a b c : qlist_eqb a b = true -> qlist_eqb b c = true -> qlist_eqb a c = true.
+Proof.
+  rewrite !qlist_eqb_Forall2. intros H. revert c. induction H as [|x y a b Hxy _ IH]; intros c Hc; inversion Hc; subst; constructor.
+  - etransitivity; eassumption.
+  - apply IH; assumption.
+Qed.
+
+Lemma qlist_eqb_sym a b : qlist_eqb a b = true -> qlist_eqb b a = true.
+Proof.
+  rewrite !qlist_eqb_Forall2. intros H. induction H; constructor; [symmetry; assumption | assumption].
+Qed.
+
+Lemma same_but_weights_refl c : same_but_weights c c.
+Proof. unfold same_but_weights. rewrite !qlist_eqb_refl. repeat split. Qed.
+
+Lemma same_but_weights_trans a b c : same_but_weights a b -> same_but_weights b c -> same_but_weights a c.
+Proof.
+  intros (H1 & H2 & H3 & H4 & H5 & H6 & H7) (K1 & K2 & K3 & K4 & K5 & K6 & K7). unfold same_but_weights.
+  rewrite K1, K2, K3, K4, K5, H1, H2, H3, H4, H5. repeat (split; [reflexivity|]).
+  split; eapply qlist_eqb_trans; eassumption.
+Qed.
+
+Lemma same_but_weights_sym a b : same_but_weights a b -> same_but_weights b a.
+Proof.
+  intros (H1 & H2 & H3 & H4 & H5 & H6 & H7). unfold same_but_weights. rewrite H1, H2, H3, H4, H5.
+  repeat (split; [reflexivity|]). split; apply qlist_eqb_sym; assumption.
+Qed.
+
+Lemma canonical_revalidate_n E c : enums_wf E -> canonical E c -> forall n,
+  exists c', revalidate_n E n c = Ok c' /\ same_but_weights c c' /\ canonical E c'.
+Proof.
+  intros HE Hc n. revert c Hc. induction n as [|n IH]; intros c Hc.
+  - exists c. split; [reflexivity|]. split; [apply same_but_weights_refl | exact Hc].
+  - destruct (canonical_fixed _ _ Hc) as (c1 & Hv & Hs).
+    assert (Hc1 : canonical E c1) by (eapply validated_canonical; eassumption).
+    destruct (IH c1 Hc1) as (c' & Hr & Hs' & Hc').
+    exists c'. cbn [revalidate_n]. unfold dump. rewrite Hv. cbn [bind].
+    split; [exact Hr|]. split; [eapply same_but_weights_trans; eassumption | exact Hc'].
+Qed.
+
+(* whatever was validated survives any number of dump -> validate hand-offs: every one of them succeeds, and the result is the
+   first configuration up to == on the weights -- magnitudes, types, bounds, thresholds, constraints are the same terms *)
+Lemma validate_stable_n E ctx nls raw c n : enums_wf E -> validate E ctx nls raw = Ok c ->
+  exists c', revalidate_n E n c = Ok c' /\ same_but_weights c c' /\ equiv c c' = true /\ canonical E c'.
+Proof.
+  intros HE H. pose proof (validated_canonical _ _ _ _ _ HE H) as Hc.
+  destruct (canonical_revalidate_n E c HE Hc n) as (c' & Hr & Hs & Hc'). exists c'.
+  split; [exact Hr|]. split; [exact Hs|]. split; [apply same_but_weights_equiv; exact Hs | exact Hc'].
+Qed.
